@@ -75,6 +75,7 @@ RxClause(v) ==
   LET d == Decode(v.payload, ChIdx(v.rfch)) IN
   IF v.exc # "none" THEN <<"C19.NoRaise", "available() raised " \o v.exc>>
   ELSE IF ~d.ok THEN (IF v.queued > 0 THEN <<"C19.RejectsInvalid", "queued a payload with inconsistent " \o d.why>> ELSE OK)
+  ELSE IF d.rfu /\ v.queued = 0 THEN OK                       \* reserved length bits set: ignoring the packet is fine; if it is queued it must decode (6-bit length)
   ELSE IF d.len < 6 \/ d.hdr # 66 THEN OK                     \* not a non-connectable advertisement with an AdvA: either way
   ELSE IF v.queued # 1 THEN <<"C19.Decodes", "valid advertisement queued " \o ToString(v.queued) \o " times">>
   ELSE IF v.elem.mac # SubSeq(d.pdu, 3, 8) THEN <<"C19.Decodes", "MAC differs">>
